@@ -849,3 +849,6 @@ M("c17-set-copies-in-place", ["C17"], VM,
   "                values = [source.get_index(i) for i in range(source.length)]\n                for i, value in enumerate(values):\n                    arr.set_index(offset + i, value)\n",
   "                for i in range(source.length):\n                    arr.set_index(offset + i, source.get_index(i))\n",
   [("C17", "C17-R15", "set_fn")], note="fix e8d1609 reverted")
+M("c06-compound-form-missing", ["C06"], PA,
+  "            TokenType.STAR_ASSIGN,\n            TokenType.STARSTAR_ASSIGN,\n", "            TokenType.STAR_ASSIGN,\n",
+  [("C06", "C06-R1", "")], count=2, note="fix 7f919c3 reverted in the parser: **= is lexed but not accepted")
